@@ -443,15 +443,21 @@ def PlatOK (nS nM : Nat) (pf : Timeline.Platform) (pl : List (Int × Option (Lis
     ∀ M : Mode, mk (ticks M nS nM evs) = ((pf.lookup id).getD []).map (fun p => Tk.cmd p.1 p.2)
 
 /-- the index operands that `convert_track` offsets fit their byte (C09: `index_fits_byte`) -/
-def FitsEv (nS : Nat) (ev : MEv) : Prop :=
-  (ev.type = mds_PAT → ev.arg < 256) ∧ (ev.type = mds_MTAB → ev.arg ≠ 0 → (ev.arg + nS) % 256 = ev.arg + nS)
+def FitsEv (nS nM : Nat) (ev : MEv) : Prop :=
+  (ev.type = mds_PAT → ev.arg < 256) ∧ (ev.type = mds_MTAB → ev.arg ≠ 0 → (ev.arg + nS) % 256 = ev.arg + nS) ∧
+  (ev.type = mds_PEG → ev.arg ≠ 0 → (nS + nM + ev.arg) % 256 = nS + nM + ev.arg)
+
+/-- the index maps of the context are small (the header of a chunk below 64 KiB holds two bytes per
+macro track and per used data entry): every macro index and every envelope index handed out is
+below 32768, so `index + 1` is not reduced by the 16-bit event argument -/
+def CtxSmall (cx : WCtx) : Prop := (∀ p ∈ cx.mac, p.2 < 32768) ∧ cx.used ≤ 32768
 
 /-- what a leaf event that is not a rest pushes: events of the linear fragment that play the
 event's ticks (the off time becomes pending rest) -/
 theorem body_sem (M : Mode) (nS nM : Nat) (R : Int → Option (List Tk × Int)) (pf : Timeline.Platform) (cx : WCtx)
-    (hD : DrumH M.rt R cx.sub) (hP : PlatOK nS nM pf cx.plat) (hMac : ∀ p ∈ cx.mac, p.2 < 32768) (e : Event) (hs : SimpleEv e)
+    (hD : DrumH M.rt R cx.sub) (hP : PlatOK nS nM pf cx.plat) (hMac : CtxSmall cx) (e : Event) (hs : SimpleEv e)
     (ht : Timed e) (hk : e.kind = .other) (hne : e.type ≠ ev_REST) (hnd : e.type ≠ ev_DRUM_MODE) {b : List MEv}
-    (hb : Body cx M.dm (tItem e e) b) (hfb : ∀ ev ∈ b, FitsEv nS ev) :
+    (hb : Body cx M.dm (tItem e e) b) (hfb : ∀ ev ∈ b, FitsEv nS nM ev) :
     (∀ x ∈ b, linEv x = true) ∧ (∀ x ∈ b, M.evOk x = true) ∧
       mk (ticks M nS nM b) ++ List.replicate e.off Tk.off = itTicks R pf M.dm (item e) := by
   obtain ⟨k1, k2, k3, k4, k5⟩ := kind_other_types hk
@@ -494,11 +500,11 @@ theorem body_sem (M : Mode) (nS nM : Nat) (R : Int → Option (List Tk × Int)) 
     have hp' : e.param ≠ 0 := hp
     have hon : e.on = 0 := ht.2.2.1 (by rw [t']; decide) (by rw [t']; decide)
     have hoff : e.off = 0 := ht.2.2.2.1 (by rw [t']; decide) (by rw [t']; decide) (by rw [t']; decide)
-    have hk32 : k < 32768 := hMac _ hmem
+    have hk32 : k < 32768 := hMac.1 _ hmem
     have ha : Mds.u16 (Mds.wrap16 ((k : Int) + 1)) = k + 1 := by simp only [Mds.u16, Mds.wrap16]; omega
     have harg : (k + 1 : Nat) ≠ 0 := Nat.succ_ne_zero k
     have hfit : (k + 1 + nS) % 256 = k + 1 + nS := by
-      have := (hfb ⟨mds_MTAB, Mds.u16 (Mds.wrap16 ((k : Int) + 1))⟩ (by simp)).2 rfl
+      have := (hfb ⟨mds_MTAB, Mds.u16 (Mds.wrap16 ((k : Int) + 1))⟩ (by simp)).2.1 rfl
       rw [ha] at this
       exact this harg
     rw [ha]
@@ -509,6 +515,25 @@ theorem body_sem (M : Mode) (nS nM : Nat) (R : Int → Option (List Tk × Int)) 
     have hk1 : ¬ k + 1 = 0 := by omega
     simp +decide [itTicks, item, Timeline.cmdOf, t', hp', hon, hoff, mk, ticks, evTicks, isCmdOp, cmdArg, Timeline.maskTk,
       hk1, hne0]
+  | @peg i t hp hlt =>
+    have t' : e.type = ev_PITCH_ENVELOPE := t
+    have hp' : e.param ≠ 0 := hp
+    have hon : e.on = 0 := ht.2.2.1 (by rw [t']; decide) (by rw [t']; decide)
+    have hoff : e.off = 0 := ht.2.2.2.1 (by rw [t']; decide) (by rw [t']; decide) (by rw [t']; decide)
+    have hi32 : i < 32768 := Nat.lt_of_lt_of_le hlt hMac.2
+    have ha : Mds.u16 (Mds.wrap16 ((i : Int) + 1)) = i + 1 := by simp only [Mds.u16, Mds.wrap16]; omega
+    have harg : (i + 1 : Nat) ≠ 0 := Nat.succ_ne_zero i
+    have hfit : (nS + nM + (i + 1)) % 256 = nS + nM + (i + 1) := by
+      have := (hfb ⟨mds_PEG, Mds.u16 (Mds.wrap16 ((i : Int) + 1))⟩ (by simp)).2.2 rfl
+      rw [ha] at this
+      exact this harg
+    rw [ha]
+    refine ⟨fun x hx => by simp at hx; subst hx; rfl,
+      fun x hx => by simp at hx; subst hx; simp +decide [Mode.evOk], ?_⟩
+    have hne0 : ¬ (nS + nM + (i + 1)) % 256 = 0 := by rw [hfit]; omega
+    have hi1 : ¬ i + 1 = 0 := by omega
+    simp +decide [itTicks, item, Timeline.cmdOf, t', hp', hon, hoff, mk, ticks, evTicks, isCmdOp, cmdArg, Timeline.maskTk,
+      hi1, hne0]
   | @ins ty i t hty =>
     have t' : e.type = ev_INS := t
     have hon : e.on = 0 := ht.2.2.1 (by rw [t']; decide) (by rw [t']; decide)
@@ -542,11 +567,11 @@ theorem body_sem (M : Mode) (nS nM : Nat) (R : Int → Option (List Tk × Int)) 
     · rw [if_pos t2] at h
       by_cases hdm : M.dm = true
       · rw [if_pos hdm] at h; cases h
-      rw [if_neg hdm, if_pos (hs.1 t2)] at h
+      rw [if_neg hdm, if_pos (hs t2)] at h
       have hdm' : M.dm = false := by simpa using hdm
       simp only [Option.some.injEq] at h
       subst h
-      obtain ⟨p0, p1⟩ := hs.1 t2
+      obtain ⟨p0, p1⟩ := hs t2
       have hon1 := ht.2.2.2.2 t2
       have ha : Mds.u16 (e.on : Int) = e.on := by rw [u16_nat']; have := ht.1; omega
       rw [ha]
@@ -650,8 +675,12 @@ theorem body_sem (M : Mode) (nS nM : Nat) (R : Int → Option (List Tk × Int)) 
     rw [if_neg t] at h
     have n13 := t; clear t
     by_cases t : e.type = ev_PITCH_ENVELOPE
-    · have hp := hs.2 t
-      rw [if_pos t, if_pos hp] at h
+    · rw [if_pos t] at h
+      have hp : e.param = 0 := by
+        by_cases hp : e.param = 0
+        · exact hp
+        · rw [if_neg hp] at h; cases h
+      rw [if_pos hp] at h
       simp only [Option.some.injEq] at h
       subst h
       have hon : e.on = 0 := ht.2.2.1 (by rw [t]; decide) (by rw [t]; decide)
@@ -686,6 +715,7 @@ theorem body_rest {cx : WCtx} {d : Bool} {e : Event} (t : e.type = ev_REST) {b :
   | dnote t' _ _ _ _ => rw [show (tItem e e).ev.type = e.type from rfl, t] at t'; exact absurd t' (by decide)
   | plat t' _ => rw [show (tItem e e).ev.type = e.type from rfl, t] at t'; exact absurd t' (by decide)
   | mtab t' _ _ => rw [show (tItem e e).ev.type = e.type from rfl, t] at t'; exact absurd t' (by decide)
+  | peg t' _ _ => rw [show (tItem e e).ev.type = e.type from rfl, t] at t'; exact absurd t' (by decide)
   | det h =>
     unfold detBody at h
     simp +decide [t] at h
@@ -695,10 +725,10 @@ theorem body_rest {cx : WCtx} {d : Bool} {e : Event} (t : e.type = ev_REST) {b :
 is flushed and pushed for it lies in the linear fragment, fits the mode, and plays the pending rest
 that was flushed and the event's own ticks, up to the rest that is pending afterwards -/
 theorem leaf_sem (M : Mode) (nS nM : Nat) (R : Int → Option (List Tk × Int)) (pf : Timeline.Platform)
-    (cx : WCtx) (hD : DrumH M.rt R cx.sub) (hP : PlatOK nS nM pf cx.plat) (hMac : ∀ p ∈ cx.mac, p.2 < 32768)
+    (cx : WCtx) (hD : DrumH M.rt R cx.sub) (hP : PlatOK nS nM pf cx.plat) (hMac : CtxSmall cx)
     (e : Event) (hs : SimpleEv e)
     (ht : Timed e) (hk : e.kind = .other) (hnd : e.type ≠ ev_DRUM_MODE) (r : Nat) (hr : r < 65536) {b : List MEv}
-    (hb : Body cx M.dm (tItem e e) b) (hfb : ∀ ev ∈ b, FitsEv nS ev) :
+    (hb : Body cx M.dm (tItem e e) b) (hfb : ∀ ev ∈ b, FitsEv nS nM ev) :
     (∀ x ∈ (prepR r (tItem e e)).1 ++ b, linEv x = true) ∧ (∀ x ∈ (prepR r (tItem e e)).1 ++ b, M.evOk x = true) ∧
     (prepR r (tItem e e)).2 < 65536 ∧
     List.replicate r Tk.off ++ itTicks R pf M.dm (item e) =
@@ -824,6 +854,7 @@ theorem body_lp {cx : WCtx} {d : Bool} {e : Event} (t : e.type = ev_LOOP_START) 
   | dnote t' _ _ _ _ => rw [show (tItem e e).ev.type = e.type from rfl, t] at t'; exact absurd t' (by decide)
   | plat t' _ => rw [show (tItem e e).ev.type = e.type from rfl, t] at t'; exact absurd t' (by decide)
   | mtab t' _ _ => rw [show (tItem e e).ev.type = e.type from rfl, t] at t'; exact absurd t' (by decide)
+  | peg t' _ _ => rw [show (tItem e e).ev.type = e.type from rfl, t] at t'; exact absurd t' (by decide)
   | det h => unfold detBody at h; simp +decide [t] at h; exact h.symm
 
 theorem body_lpb {cx : WCtx} {d : Bool} {e : Event} (t : e.type = ev_LOOP_BREAK) {b : List MEv}
@@ -834,6 +865,7 @@ theorem body_lpb {cx : WCtx} {d : Bool} {e : Event} (t : e.type = ev_LOOP_BREAK)
   | dnote t' _ _ _ _ => rw [show (tItem e e).ev.type = e.type from rfl, t] at t'; exact absurd t' (by decide)
   | plat t' _ => rw [show (tItem e e).ev.type = e.type from rfl, t] at t'; exact absurd t' (by decide)
   | mtab t' _ _ => rw [show (tItem e e).ev.type = e.type from rfl, t] at t'; exact absurd t' (by decide)
+  | peg t' _ _ => rw [show (tItem e e).ev.type = e.type from rfl, t] at t'; exact absurd t' (by decide)
   | det h => unfold detBody at h; simp +decide [t] at h; exact h.symm
 
 theorem body_lpf {cx : WCtx} {d : Bool} {e : Event} (t : e.type = ev_LOOP_END) {b : List MEv}
@@ -844,6 +876,7 @@ theorem body_lpf {cx : WCtx} {d : Bool} {e : Event} (t : e.type = ev_LOOP_END) {
   | dnote t' _ _ _ _ => rw [show (tItem e e).ev.type = e.type from rfl, t] at t'; exact absurd t' (by decide)
   | plat t' _ => rw [show (tItem e e).ev.type = e.type from rfl, t] at t'; exact absurd t' (by decide)
   | mtab t' _ _ => rw [show (tItem e e).ev.type = e.type from rfl, t] at t'; exact absurd t' (by decide)
+  | peg t' _ _ => rw [show (tItem e e).ev.type = e.type from rfl, t] at t'; exact absurd t' (by decide)
   | det h => unfold detBody at h; simp +decide [t] at h; exact h.symm
 
 theorem body_segno {cx : WCtx} {d : Bool} {e : Event} (t : e.type = ev_SEGNO) {b : List MEv}
@@ -854,6 +887,7 @@ theorem body_segno {cx : WCtx} {d : Bool} {e : Event} (t : e.type = ev_SEGNO) {b
   | dnote t' _ _ _ _ => rw [show (tItem e e).ev.type = e.type from rfl, t] at t'; exact absurd t' (by decide)
   | plat t' _ => rw [show (tItem e e).ev.type = e.type from rfl, t] at t'; exact absurd t' (by decide)
   | mtab t' _ _ => rw [show (tItem e e).ev.type = e.type from rfl, t] at t'; exact absurd t' (by decide)
+  | peg t' _ _ => rw [show (tItem e e).ev.type = e.type from rfl, t] at t'; exact absurd t' (by decide)
   | det h => unfold detBody at h; simp +decide [t] at h; exact h.symm
 
 theorem body_jump {cx : WCtx} {d : Bool} {e : Event} (t : e.type = ev_JUMP) {b : List MEv}
@@ -865,6 +899,7 @@ theorem body_jump {cx : WCtx} {d : Bool} {e : Event} (t : e.type = ev_JUMP) {b :
   | dnote t' _ _ _ _ => rw [show (tItem e e).ev.type = e.type from rfl, t] at t'; exact absurd t' (by decide)
   | plat t' _ => rw [show (tItem e e).ev.type = e.type from rfl, t] at t'; exact absurd t' (by decide)
   | mtab t' _ _ => rw [show (tItem e e).ev.type = e.type from rfl, t] at t'; exact absurd t' (by decide)
+  | peg t' _ _ => rw [show (tItem e e).ev.type = e.type from rfl, t] at t'; exact absurd t' (by decide)
   | det h => unfold detBody at h; simp +decide [t] at h
 
 /-- the drum-mode switch: the `FLG` command with the drum bit -/
@@ -876,6 +911,7 @@ theorem body_drum {cx : WCtx} {d : Bool} {e : Event} (t : e.type = ev_DRUM_MODE)
   | dnote t' _ _ _ _ => rw [show (tItem e e).ev.type = e.type from rfl, t] at t'; exact absurd t' (by decide)
   | plat t' _ => rw [show (tItem e e).ev.type = e.type from rfl, t] at t'; exact absurd t' (by decide)
   | mtab t' _ _ => rw [show (tItem e e).ev.type = e.type from rfl, t] at t'; exact absurd t' (by decide)
+  | peg t' _ _ => rw [show (tItem e e).ev.type = e.type from rfl, t] at t'; exact absurd t' (by decide)
   | det h =>
     unfold detBody at h
     simp +decide [t] at h
@@ -1101,12 +1137,12 @@ theorem or_segno_false {g : Bool} {e : Event} (h : e.kind ≠ .segno) : (g || (t
 set_option maxRecDepth 8192 in
 mutual
 theorem semN (hH : CallH M R pf cx seq base mj call Q) (hD : DrumH M.rt R cx.sub) (hP : PlatOK nS nM pf cx.plat)
-    (hMac : ∀ p ∈ cx.mac, p.2 < 32768) (n : Tree.Node) (hcl : Node.closed n)
+    (hMac : CtxSmall cx) (n : Tree.Node) (hcl : Node.closed n)
     (hev : ∀ e ∈ flattenN n, EvOK Q e)
     (d : Nat) (il : Bool) (items : List Item) (hexp : Expand.expN call d il n = .ok items)
     (r : Nat) (g : Bool) (ms : List MEv) (r' : Nat) (g' : Bool) (hr : r < 65536)
     (hem : Emits cx M.dm r g ((flattenN n).map fun e => tItem e e) ms r' g')
-    (hfit : ∀ ev ∈ ms, FitsEv nS ev) :
+    (hfit : ∀ ev ∈ ms, FitsEv nS nM ev) :
     SemOK M nS nM R pf seq base mj (isBrk n) items r ms r' ∧ r' < 65536 ∧ g' = g := by
   match n, hcl, hev, hexp, hem with
   | .ev e, hcl, hev, hexp, hem =>
@@ -1304,12 +1340,12 @@ decreasing_by
   all_goals simp [flattenN, Tree.flattenL_append, Tree.flattenL_cons]
   all_goals omega
 theorem semL (hH : CallH M R pf cx seq base mj call Q) (hD : DrumH M.rt R cx.sub) (hP : PlatOK nS nM pf cx.plat)
-    (hMac : ∀ p ∈ cx.mac, p.2 < 32768) (f : List Tree.Node) (hcl : closedL f)
+    (hMac : CtxSmall cx) (f : List Tree.Node) (hcl : closedL f)
     (hev : ∀ e ∈ flattenL f, EvOK Q e)
     (d : Nat) (il : Bool) (items : List Item) (hexp : Expand.expL call d il f = .ok items)
     (r : Nat) (g : Bool) (ms : List MEv) (r' : Nat) (g' : Bool) (hr : r < 65536)
     (hem : Emits cx M.dm r g ((flattenL f).map fun e => tItem e e) ms r' g')
-    (hfit : ∀ ev ∈ ms, FitsEv nS ev) :
+    (hfit : ∀ ev ∈ ms, FitsEv nS nM ev) :
     SemOK M nS nM R pf seq base mj (hasTopBreak f) items r ms r' ∧ r' < 65536 ∧ g' = g := by
   match f, hcl, hev, hexp, hem with
   | [], _, _, hexp, hem =>
